@@ -173,7 +173,9 @@ impl Model for Machine {
         if s.bad.is_some() || s.depth >= self.max_depth {
             return;
         }
-        out.extend([Op::Neg, Op::Double, Op::Recompress, Op::Coset(1), Op::Coset(2), Op::Coset(3), Op::GroupDouble, Op::NegOwned, Op::Zeroize]);
+        out.extend([Op::Neg, Op::Double, Op::Recompress, Op::Coset(1), Op::Coset(2), Op::Coset(3), Op::GroupDouble, Op::NegOwned]);
+        #[cfg(feature = "zeroize")]
+        out.push(Op::Zeroize);
         if s.depth <= 1 {
             for k in 0..mul_menu().len() {
                 out.push(Op::Mul(k));
@@ -209,11 +211,14 @@ impl Model for Machine {
                 }
                 Op::Neg => (-&p, s.m.neg()),
                 Op::NegOwned => (-p, s.m.neg()),
+                #[cfg(feature = "zeroize")]
                 Op::Zeroize => {
                     let mut z = p;
                     zeroize::Zeroize::zeroize(&mut z);
                     (z, ed::ID)
                 }
+                #[cfg(not(feature = "zeroize"))]
+                Op::Zeroize => unreachable!("built without the zeroize feature"),
                 Op::Double => (&p + &p, s.m.dbl()),
                 Op::GroupDouble => (group::Group::double(&p), s.m.dbl()),
                 Op::Sum(i) => {
